@@ -226,3 +226,14 @@ pub fn blit<const N: usize>(s: &'static [u8; N], Ghost(v): Ghost<Seq<u8>>) -> (r
 {
     s
 }
+
+/// R8: `X.get(a..b).unwrap_or_default()` on a slice: the sub-slice if `a <= b <= len`, else empty
+/// (core: `<[T]>::get` returns None for a decreasing or out-of-range range; `<&[T]>::default()` is `&[]`).
+#[verifier::external_body]
+pub fn slice_get_or_empty<'a, T>(s: &'a [T], a: usize, b: usize) -> (r: &'a [T])
+    ensures
+        (a <= b && b <= s@.len()) ==> r@ == s@.subrange(a as int, b as int),
+        !(a <= b && b <= s@.len()) ==> r@ == Seq::<T>::empty(),
+{
+    s.get(a..b).unwrap_or_default()
+}
